@@ -1878,3 +1878,51 @@ pub fn regenerate_id<'a>(id: &'a str, strategy: &'a IdStrategy) -> String {
         }
     }
 }
+
+/// Verification hooks (compiled only with `--cfg stam_verif`): read-only dumps as plain sorted tuples.
+#[cfg(stam_verif)]
+mod verif_hooks {
+    use super::*;
+    impl<HandleType: Handle> IdMap<HandleType> {
+        /// (id, handle) pairs sorted by id
+        pub fn verif_dump(&self) -> Vec<(String, usize)> {
+            let mut v: Vec<(String, usize)> = self
+                .data
+                .iter()
+                .map(|(k, h)| (k.clone(), h.as_usize()))
+                .collect();
+            v.sort();
+            v
+        }
+    }
+    impl<A: Handle, B: Handle> RelationMap<A, B> {
+        /// (a, [b...]) for every slot, entries in storage order
+        pub(crate) fn verif_dump(&self) -> Vec<(usize, Vec<usize>)> {
+            self.data
+                .iter()
+                .enumerate()
+                .map(|(a, bs)| (a, bs.iter().map(|b| b.as_usize()).collect()))
+                .collect()
+        }
+    }
+    impl<A: Handle, B: Handle> RelationBTreeMap<A, B> {
+        pub(crate) fn verif_dump(&self) -> Vec<(usize, Vec<usize>)> {
+            self.data
+                .iter()
+                .map(|(a, bs)| (a.as_usize(), bs.iter().map(|b| b.as_usize()).collect()))
+                .collect()
+        }
+    }
+    impl<A: Handle, B: Handle, C: Handle> TripleRelationMap<A, B, C> {
+        /// (a, b, [c...]) for every slot pair, entries in storage order
+        pub(crate) fn verif_dump(&self) -> Vec<(usize, usize, Vec<usize>)> {
+            let mut out = Vec::new();
+            for (a, inner) in self.data.iter().enumerate() {
+                for (b, cs) in inner.data.iter().enumerate() {
+                    out.push((a, b, cs.iter().map(|c| c.as_usize()).collect()));
+                }
+            }
+            out
+        }
+    }
+}
